@@ -164,6 +164,8 @@ def run(P, R, tier):
     # rows that enter the scatter are selected by label equality, never by position
     nsel = 0
     for n_ in walk_no_nested(f.node):
+        if isinstance(n_, ast.AugAssign) and not isinstance(n_.op, ast.Add) and isinstance(n_.target, ast.Name) and any(isinstance(x, ast.BinOp) and isinstance(x.op, ast.MatMult) for x in ast.walk(n_.value)):
+            R.violation("POL.scatter", f.key, src(n_)[:60], "the per-class scatter is not *added* to the within-class scatter", n_.lineno)
         if isinstance(n_, ast.AugAssign) and isinstance(n_.op, ast.Add) and isinstance(n_.target, ast.Name) and any(isinstance(x, ast.BinOp) and isinstance(x.op, ast.MatMult) for x in ast.walk(n_.value)):
             c = cone(du, n_.value, du.stmt_of(n_), interproc=False)
             for sub in [x for x in c.nodes if isinstance(x, ast.Subscript) and isinstance(x.value, ast.Name) and x.value.id == "X"]:
